@@ -214,6 +214,7 @@ def run_check(pid: str, tier: str, repo_root=None, seed=0):
         by_func.setdefault(res["function"], []).append((res, ob))
     for fname, items in by_func.items():
         focus = [fname.split("/")[-1]] if "/" in fname else [fname]
+        focus = [f_.split("#")[0] for f_ in focus]            # contract variants are checked on the same function
         agg, failure = bounded_search(pid, focus, BOUNDED_BUDGET_S, seed, repo_root)
         agg["focus"] = focus
         agg["purpose"] = "search for a failing input for refuted obligations"
@@ -236,7 +237,7 @@ def run_check(pid: str, tier: str, repo_root=None, seed=0):
     und_funcs = [n for (n, why) in undecided if n in {r["function"] for r in results if r["status"] == "undecided"}]
     und_funcs = sorted(set(und_funcs) | {f for f in unknown_funcs if "/" not in f})
     if und_funcs:
-        agg, failure = bounded_search(pid, [f.split("/")[-1] for f in und_funcs], BOUNDED_BUDGET_S, seed, repo_root)
+        agg, failure = bounded_search(pid, [f.split("/")[-1].split("#")[0] for f in und_funcs], BOUNDED_BUDGET_S, seed, repo_root)
         agg["focus"] = und_funcs
         agg["purpose"] = "bounded stand-in for functions outside the symbolic subset"
         bounded_report.append(agg)
